@@ -20,7 +20,7 @@ META = {
     "non-empty subset of a 3-charge set per index x every direction pattern x every total charge (reachable ones plus one unreachable) - "
     "non-trivial = array with >=2 valid sectors and at least one dual index",
     "bounds": {
-        "quick": {"u1_box": 6, "u1u1": "all pairs + triples over [-2,2]^2", "max_indices": 3},
+        "quick": {"u1_box": 6, "u1u1": "all pairs + triples over [-2,2]^2", "max_indices": "3 over a 3-charge set, 4 over a 2-charge set"},
         "thorough": {"u1_box": 6, "u1u1": "all triples over [-6,6]^2", "max_indices": 4},
     },
     "assumptions": [
@@ -60,11 +60,13 @@ def groups(ctx):
                 out.append(("laws", sym, k, nchunks))
         else:
             out.append(("laws", sym, 0, 1))
-    nmax = 4 if ctx.thorough else 3
+    nmax = 4
     for sym in G.SYMS:
         sets = SETS[sym] if ctx.thorough else SETS[sym][:1]
         for si, cs in enumerate(sets):
             for n in range(0, nmax + 1):
+                if n == 4 and not ctx.thorough:
+                    cs = cs[:2]  # quick: four indices over the non-empty subsets of a two-charge set
                 subsets = [c for r in range(1, len(cs) + 1) for c in itertools.combinations(cs, r)]
                 first = subsets if n >= 1 else [None]
                 for f in first:
@@ -240,6 +242,8 @@ def run_sectors(ctx, sym, si, n, first):
 
     st = Stats()
     cs = SETS[sym][si]
+    if n == 4 and not ctx.thorough:
+        cs = cs[:2]
     subsets = [c for r in range(1, len(cs) + 1) for c in itertools.combinations(cs, r)]
     rest = itertools.product(subsets, repeat=max(n - 1, 0))
     for tail in rest:
